@@ -50,6 +50,7 @@ func names(path []int, alpha []string) string {
 
 func main() {
 	h := hx.New("C20")
+	registerParentConcurrent(h)
 	h.Seq("parent", parentScenario)
 	h.Seq("vending", vendingScenario)
 	h.Seq("fanspeed", fanScenario)
